@@ -528,7 +528,7 @@ func TestC10(t *testing.T) {
 	c := ev.For("C10")
 	defer c.Done()
 	c10Rule(c)
-	rapid.Check(t, func(rt *rapid.T) {
+	checkRapid(t, c, func(rt *rapid.T) {
 		n := 0
 		switch gen.Pick(rt, "nframes_class", 6) {
 		case 0:
@@ -602,7 +602,7 @@ func TestC10Parse(t *testing.T) {
 	c := ev.For("C10")
 	defer c.Done()
 	c10Rule(c)
-	rapid.Check(t, func(rt *rapid.T) {
+	checkRapid(t, c, func(rt *rapid.T) {
 		n := rapid.IntRange(1, 120).Draw(rt, "nframes")
 		var frames [][]byte
 		var wantKeys []string
